@@ -2,6 +2,7 @@ import ScpiVerif.Drv.Util
 import ScpiVerif.Drv.Parse
 import ScpiVerif.Spec.Float
 import ScpiVerif.Gen.Tables
+import ScpiVerif.Model.Dtostre
 namespace ScpiVerif.Drv
 open ScpiVerif.Lexer
 
@@ -68,7 +69,7 @@ def runBufFmt (cfg : String) (inp : List String) (obs : List String) : Option Ve
     let want := oracle.take (buflen - 1)
     let c15 := common buflen ++ (if !custom ∧ buflen > 0 ∧ text != want then ["C15.text_truncation"] else [])
     let c16 :=
-      if buflen ≤ oracle.length + 8 ∧ text.length + 1 ≥ buflen then []      -- truncated by the caller's buffer: not a statement about digits
+      if text.length + 1 ≥ buflen then []      -- the caller's buffer is full: truncated text, not a statement about digits
       else match exact with
         | none =>
           let t := lowerBytes text
@@ -92,7 +93,18 @@ def runBufFmt (cfg : String) (inp : List String) (obs : List String) : Option Ve
           let t := text.dropWhile (fun b => b == 43 || b == 32)      -- PLUS_SIGN / ALWAYS_SIGN flags
           if withinDigits t ex prec 1 1 then []
           else if withinDigits t ex prec 3 1 ∧ prec ≥ 14 then ["C16.custom_formatter_accumulated_error"] else ["C16.custom_formatter_digits"]
-    pure { modelObs := " ".intercalate obs, rejects := common buflen ++ c16, nontrivial := true,
+    -- model of the string assembly on the digits / exponent the digit generator produced
+    let modelObs := match exact, extra with
+      | some _, [dg, dp] =>
+        match unhex dg, parseInt dp with
+        | some digits, some decpt =>
+          let neg := bits / 2^63 == 1
+          let full := Dtostre.signPrefix neg false flags ++ Dtostre.assemble prec digits decpt
+          let t := if buflen == 0 then [] else full.take (buflen - 1)
+          s!"{t.length} {hexOfBytes t} {if buflen == 0 then 0 else 1} 1 {dg} {dp}"
+        | _, _ => " ".intercalate obs
+      | _, _ => " ".intercalate obs
+    pure { modelObs, rejects := common buflen ++ c16, nontrivial := true,
            tags := ["e", s!"prec{prec}", if flags == 0 then "noflags" else "flags", if exact.isNone then "nonfinite" else "finite"] }
   | "n", [special, tag, _bits, unit, buflen, oracle] => do
     let special := special != "0"; let tag ← parseInt tag; let unit ← unit.toNat?; let buflen ← buflen.toNat?; let _ ← unhex oracle
